@@ -10,8 +10,9 @@ Fabric semantics
     dropped silently.
   * DROP(k) removes a datagram, DUP(k) puts a copy behind the youngest in-flight datagram (only where the harness
     enables them).
-  * TIMER advances virtual time to the earliest timer.  In 'hit' mode it is enabled only while that does not carry any
-    in-flight datagram past the RPC timeout of the request it belongs to (DESIGN.md A.6: otherwise delay is loss).
+  * TIMER advances virtual time to the earliest timer.  In 'hit' mode a timer may overtake pending work only if it is due
+    before the RPC deadline of every recently sent request (DESIGN.md A.6: a datagram held - or a loop stalled - for a
+    whole RPC timeout is loss, not delay).
   * An exception escaping datagram_received is handled as CPython's selector datagram transport does: the callback's
     exception reaches Handle._run, i.e. the loop exception handler, and the transport STAYS OPEN (verified against
     3.12.1 with a real socket; DESIGN.md A.2 assumed "transport closed" - opt in with close_on_error=True).
@@ -163,6 +164,30 @@ class FakeEndpoint:
         self.received.append((data, src))
 
 
+class Alphabet:
+    """Which deviations from the default schedule a harness explores.
+    reorder: early / non-oldest datagram delivery; timer: 'hit' (never past an in-flight datagram's RPC timeout),
+    'any', or None (timers only when nothing else is pending); dup / drop / late: fault events;
+    quiescent_only: choice points only at boundaries with an empty ready queue;
+    faults_oldest_only: fault events only for the oldest in-flight datagram at quiescent boundaries (loss and lateness
+    commute with everything that happens before the datagram would have been delivered, so this is the canonical
+    representative of "datagram j is lost/late")."""
+    __slots__ = ('reorder', 'timer', 'dup', 'drop', 'late', 'quiescent_only', 'faults_oldest_only')
+
+    def __init__(self, reorder=True, timer='hit', dup=False, drop=False, late=False, quiescent_only=False,
+                 faults_oldest_only=False):
+        self.reorder, self.timer, self.dup, self.drop, self.late = reorder, timer, dup, drop, late
+        self.quiescent_only, self.faults_oldest_only = quiescent_only, faults_oldest_only
+
+    def describe(self):
+        return {k: getattr(self, k) for k in self.__slots__}
+
+
+HIT_FULL = Alphabet(reorder=True, timer='hit', dup=True)
+HIT_QUIESCENT = Alphabet(reorder=True, timer='hit', dup=True, quiescent_only=True)
+LOSSY = Alphabet(reorder=False, timer=None, drop=True, late=True, faults_oldest_only=True)
+
+
 class UdpLoop(VLoop):
     def __init__(self, close_on_error=False, rpc_timeout=5.0):
         super().__init__()
@@ -179,6 +204,8 @@ class UdpLoop(VLoop):
         self.sent_log = None       # list of (n, vtime, src, dst, ptype) while recording
         self._injected = set()     # destinations that already got a datagram at this iteration boundary
         self._timer_fired = False  # a timer was made ready at this boundary (no more I/O injection before STEP)
+        self.trace_digest = None   # optional hashlib object fed with every delivery (observation log)
+        self._recent_deadlines = collections.deque()   # RPC deadlines of requests sent, ascending
 
     # -- endpoint creation ---------------------------------------------------------------------------------------
     async def create_datagram_endpoint(self, protocol_factory, local_addr=None, remote_addr=None, **kw):
@@ -202,6 +229,7 @@ class UdpLoop(VLoop):
         if ptype == 0:
             deadline = self._vtime + self.rpc_timeout
             self.req_deadline[(src, rpc_id)] = deadline
+            self._recent_deadlines.append(deadline)
         elif ptype is not None:
             deadline = self.req_deadline.get((dst, rpc_id))
         d = Dgram(self.dgram_counter, src, tuple(dst), data, self._vtime, deadline, ptype, rpc_id)
@@ -235,6 +263,9 @@ class UdpLoop(VLoop):
             self.stats['undeliverable'] += 1
             return
         self.stats['delivered'] += 1
+        if self.trace_digest is not None:
+            self.trace_digest.update(b'%s>%s:%d@%.3f;' % (d.src[0].encode(), d.dst[0].encode(),
+                                                        -1 if d.ptype is None else d.ptype, self._vtime))
         if d.ptype in (1, 2):
             self.replied[d.dst].add(d.src)
         try:
@@ -270,42 +301,69 @@ class UdpLoop(VLoop):
 
     # -- schedule drivers ----------------------------------------------------------------------------------------
     def timer_allowed_hit(self, when):
-        """'hit' rule: the next timer may fire only if no in-flight datagram would be held past its request's
-        RPC timeout (deadline unknown = unconstrained)."""
-        for d in self.inflight:
-            if d.deadline is not None and when >= d.deadline:
-                return False
-        return True
+        """'hit' rule (DESIGN.md A.6, made precise): exploration may let a timer fire ahead of pending work only if that
+        timer is due strictly before the RPC deadline of every request sent during the last rpc_timeout seconds.  So
+        neither a held datagram nor a stalled loop can make an RPC time out (delay that long is indistinguishable from
+        loss, which no lookup protocol can mask); shorter delays across the periodic timers are all explored."""
+        dl = self._recent_deadlines
+        while dl and dl[0] <= self._vtime:
+            dl.popleft()
+        return not dl or when < dl[0]
 
-    def enabled_events(self, timer_mode='hit', dup=False, drop=False):
-        """[(kind, k, cost, label)] in canonical order; element 0 always has cost 0."""
+    def enabled_events(self, alpha):
+        """[(kind, k, cost, label)] in canonical order (A.1); element 0 always has cost 0."""
         ev = []
         ready = bool(self._ready)
         if ready:
             ev.append(('STEP', None, 0, 'S'))
-        deliverable = False
+            if alpha.quiescent_only:
+                return ev
         if not self._timer_fired:
             first = True
             for k, d in enumerate(self.inflight):
                 if d.dst in self._injected:
                     continue
-                deliverable = True
                 cost = (1 if ready else 0) + (0 if first else 1)
                 first = False
+                if cost and not alpha.reorder:
+                    continue
                 ev.append(('DGRAM', k, cost, f'D{d.n}'))
         h = self.next_timer()
-        if h is not None and (timer_mode == 'any' or not self.inflight or self.timer_allowed_hit(h._when)):
-            ev.append(('TIMER', None, 1 if (ready or self.inflight) else 0, 'T'))
-        if drop:
-            for k, d in enumerate(self.inflight):
-                ev.append(('DROP', k, 1, f'X{d.n}'))
-        if dup:
-            for k, d in enumerate(self.inflight):
-                ev.append(('DUP', k, 1, f'U{d.n}'))
+        if h is not None:
+            pending = ready or bool(self.inflight)
+            if not pending:
+                ev.append(('TIMER', None, 0, 'T'))
+            elif alpha.timer == 'any' or (alpha.timer == 'hit' and self.timer_allowed_hit(h._when)):
+                ev.append(('TIMER', None, 1, 'T'))
+        if alpha.drop or alpha.late or alpha.dup:
+            ks = range(len(self.inflight))
+            if alpha.faults_oldest_only:
+                ks = range(min(1, len(self.inflight))) if not ready else ()
+            if alpha.drop:
+                for k in ks:
+                    ev.append(('DROP', k, 1, f'X{self.inflight[k].n}'))
+            if alpha.late:
+                for k in ks:
+                    if not self.inflight[k].copy:
+                        ev.append(('LATE', k, 1, f'L{self.inflight[k].n}'))
+            if alpha.dup:
+                for k in ks:
+                    ev.append(('DUP', k, 1, f'U{self.inflight[k].n}'))
         return ev
 
-    def run_until(self, done, chooser=None, budget=None, timer_mode='hit', dup=False, drop=False,
-                  max_steps=400_000, horizon_t=None, on_choice=None):
+    def late(self, k):
+        """Hold datagram k until just after the RPC timeout of the request it belongs to (over-timeout delay)."""
+        d = self.inflight.pop(k)
+        release = (d.deadline if d.deadline is not None else self._vtime + self.rpc_timeout) + 0.001
+        self.stats['late'] += 1
+        self.call_at(max(release, self._vtime), self._release, d)
+        return d
+
+    def _release(self, d):
+        self.inflight.append(d)
+
+    def run_until(self, done, chooser=None, budget=None, alpha=None, max_steps=400_000, horizon_t=None,
+                  on_choice=None):
         """Run until done() is true at an iteration boundary.
 
         chooser None (or deviation budget spent): default schedule.  Otherwise every boundary with more than one
@@ -313,6 +371,7 @@ class UdpLoop(VLoop):
         'horizon_steps' | 'deadlock'."""
         spent = 0
         steps = 0
+        alpha = alpha or HIT_FULL
         while True:
             if done():
                 return 'done'
@@ -334,11 +393,10 @@ class UdpLoop(VLoop):
                     return 'horizon_time'
                 self.fire_timer()
                 continue
-            ev = self.enabled_events(timer_mode, dup, drop)
+            ev = self.enabled_events(alpha)
             if not ev:
                 if not self._ready and not self.inflight and self.next_timer() is None:
                     return 'deadlock'
-                # only a forbidden timer is left while datagrams are blocked: cannot happen with ready empty
                 raise RuntimeError('udpfab: no enabled event but work pending')
             if len(ev) == 1:
                 c = 0
@@ -359,6 +417,8 @@ class UdpLoop(VLoop):
                 self.fire_timer()
             elif kind == 'DROP':
                 self.drop(k)
+            elif kind == 'LATE':
+                self.late(k)
             elif kind == 'DUP':
                 self.dup(k)
 
